@@ -71,6 +71,14 @@ def main():
             res["demo_without_tail"] = out0[-1500:]
         rc, out = run(["git", "apply", "--whitespace=nowarn", patch], cwd=wt)
         if rc != 0:
+            # the tree has moved on since the change was written (hooks, fixes):
+            # fall back to a three-way merge on the recorded blobs
+            rc, out2 = run(["git", "apply", "--3way", "--whitespace=nowarn", patch], cwd=wt)
+            out += out2
+            if rc == 0:
+                res["applied_with_3way"] = True
+                run(["git", "reset", "-q"], cwd=wt)
+        if rc != 0:
             res["error"] = "patch does not apply: " + out[-800:]; return res
         rc, out = run("go build ./...", cwd=wt)
         res["builds"] = rc == 0
